@@ -30,11 +30,13 @@ type inAct struct {
 	A string `json:"a"`
 }
 type inBeh struct {
-	Hist      []inAct  `json:"hist"`
-	Want      []int    `json:"want"`
-	Tx        []string `json:"tx"`
-	Res       []string `json:"res"`
-	Cancelled []bool   `json:"cancelled"`
+	Hist      []inAct    `json:"hist"`
+	Want      []int      `json:"want"`
+	Tx        []string   `json:"tx"`
+	Res       []string   `json:"res"`
+	Cancelled []bool     `json:"cancelled"`
+	Wattr     [][]int    `json:"wattr"`
+	Rres      [][]string `json:"rres"`
 }
 
 var (
@@ -42,14 +44,31 @@ var (
 	inOther = common.HexToAddress("0x00000000000000000000000000000000000000bb")
 )
 
+// inMainOf: transactions W and R (context writer) run in a contract whose address is the instance's own, so that a context write
+// attributed to another instance shows; A and B use one address.
+func inMainOf(tx string, idx int) common.Address {
+	if tx == "W" || tx == "R" {
+		return common.BytesToAddress([]byte{0xa0 + byte(idx)})
+	}
+	return inMain
+}
+
+func inFork(tx string) string {
+	if tx == "W" || tx == "R" {
+		return "Berlin" // 0x66 exists from Berlin on
+	}
+	return "Constantinople"
+}
+
 // inCode builds the transaction program: `steps` iterations, each starting with a JUMPDEST (where the gate parks the
 // instance) and ending with a JUMP (where the interpreter polls the abort flag). Iteration 1 executes the probe PUSH0.
 func inCode(steps int, tx string) []byte {
 	a := evmx.NewAsm()
 	v := uint64(0x11)
-	if tx == "B" {
+	if tx == "B" || tx == "R" {
 		v = 0x22
 	}
+	_, wpay := pcCanonical("write")
 	for k := 1; k <= steps; k++ {
 		a.Label(fmt.Sprintf("it%d", k))
 		if k == 1 {
@@ -78,6 +97,20 @@ func inCode(steps int, tx string) []byte {
 				a.Push(v + m).Push(20 + m).Op(vm.SSTORE)
 				a.PushBytes(jcType[:]).Push(32).Push(0).Push(20 + m).Op(vm.VVJNAL)
 			}
+		} else if tx == "W" {
+			// a context write by CALL; the success flag goes into a log
+			a.MStoreBytes(0x200, wpay)
+			a.Push(0).Push(0).Push(uint64(len(wpay))).Push(0x200).Push(0).PushAddr(pcWrite).Push(100000).Op(vm.CALL)
+			a.Push(0).Op(vm.MSTORE).Push(32).Push(0).Op(vm.LOG0)
+		} else if tx == "R" {
+			// the three other call kinds on the context writer: each must be refused whatever ran before in this process
+			a.MStoreBytes(0x200, wpay)
+			a.Push(0).Push(0).Push(uint64(len(wpay))).Push(0x200).PushAddr(pcWrite).Push(100000).Op(vm.STATICCALL)
+			a.Push(0).Push(0).Push(uint64(len(wpay))).Push(0x200).PushAddr(pcWrite).Push(100000).Op(vm.DELEGATECALL)
+			a.Push(2).Op(vm.MUL, vm.ADD)
+			a.Push(0).Push(0).Push(uint64(len(wpay))).Push(0x200).Push(0).PushAddr(pcWrite).Push(100000).Op(vm.CALLCODE)
+			a.Push(4).Op(vm.MUL, vm.ADD)
+			a.Push(0).Op(vm.MSTORE).Push(32).Push(0).Op(vm.LOG0)
 		} else {
 			// a nested call with value and a log
 			a.Push(0).Push(0).Push(0).Push(0).Push(1).PushAddr(inOther).Op(vm.GAS, vm.CALL, vm.POP)
@@ -142,6 +175,15 @@ func (t *inTracer) CaptureState(pc uint64, op vm.OpCode, gas, cost uint64, scope
 	<-t.g.grant
 }
 
+// the second gate: inside EVM.Call on 0x66, after the caller was attached and before the precompile runs
+func (g *inGate) atTransfer(from, to common.Address) {
+	if g.free || to != pcWrite {
+		return
+	}
+	g.parked <- struct{}{}
+	<-g.grant
+}
+
 type inResult struct {
 	Class            string
 	Digest           string
@@ -149,11 +191,19 @@ type inResult struct {
 	Closed           bool
 	Panic            string
 	EntryStacksClean bool
+	WriteBy          []string // addresses the host saw context writes attributed to
+	RFlags           []int    // tx R: success flags of STATICCALL (1) / DELEGATECALL (2) / CALLCODE (4) on 0x66, per iteration
 }
 
 func inDigest(e *evmx.Env, res evmx.Result, prices []string) (string, string) {
 	var sb strings.Builder
 	fmt.Fprintf(&sb, "prices=%v;", prices)
+	for _, l := range e.State.Logs() {
+		fmt.Fprintf(&sb, "log=%x;", l.Data)
+	}
+	for _, c := range e.Host.Calls {
+		fmt.Fprintf(&sb, "host=%s/%s/%s/%s;", c.Kind, c.Addr, c.Key, c.Value)
+	}
 	fmt.Fprintf(&sb, "ret=%x left=%d err=%v root=%x logs=%d;", res.Ret, res.Left, res.Err, e.State.IntermediateRoot(true), len(e.State.Logs()))
 	j, _ := json.Marshal(evmx.DumpTree(e.EVM.Tracer()))
 	sb.Write(j)
@@ -184,10 +234,12 @@ type inInstance struct {
 	tr    *inTracer
 	done  chan inResult
 	steps int
+	idx   int
+	main  common.Address
 }
 
-func newInstance(want int, tx string, steps int, free bool) *inInstance {
-	in := &inInstance{want: want, tx: tx, steps: steps, done: make(chan inResult, 1)}
+func newInstance(want int, tx string, steps int, free bool, idx int) *inInstance {
+	in := &inInstance{want: want, tx: tx, steps: steps, done: make(chan inResult, 1), idx: idx, main: inMainOf(tx, idx)}
 	in.gate = &inGate{grant: make(chan struct{}), parked: make(chan struct{}), free: free}
 	in.tr = &inTracer{g: in.gate}
 	return in
@@ -202,20 +254,21 @@ func (in *inInstance) construct() {
 	if in.want&2 != 0 {
 		eips = append(eips, 1884)
 	}
-	in.env = evmx.NewEnvWithTracer(evmx.EnvOpts{Fork: "Constantinople", ExtraEips: eips}, in.tr)
+	in.env = evmx.NewEnvWithTracer(evmx.EnvOpts{Fork: inFork(in.tx), ExtraEips: eips}, in.tr)
+	in.env.OnTransfer = in.gate.atTransfer
 	st := in.env.State
-	st.SetCode(inMain, inCode(in.steps, in.tx))
-	st.SetNonce(inMain, 1)
-	st.SetBalance(inMain, big.NewInt(10))
+	st.SetCode(in.main, inCode(in.steps, in.tx))
+	st.SetNonce(in.main, 1)
+	st.SetBalance(in.main, big.NewInt(10))
 	st.SetCode(inOther, []byte{byte(vm.STOP)})
 	st.SetNonce(inOther, 1)
 	in.env.EVM.IsExecuteJP = false
 }
 
 func (in *inInstance) run() {
-	to := inMain
+	to := in.main
 	in.env.Prepare(&to)
-	res := in.env.Call(in.env.Origin, inMain, []byte{1}, 3_000_000, big.NewInt(0))
+	res := in.env.Call(in.env.Origin, in.main, []byte{1}, 3_000_000, big.NewInt(0))
 	r := inResult{Panic: res.Panic}
 	switch {
 	case res.Panic != "":
@@ -230,6 +283,16 @@ func (in *inInstance) run() {
 		r.Class = "err:" + res.Err.Error()
 	}
 	r.Digest, r.Detail = inDigest(in.env, res, in.tr.prices)
+	for _, c := range in.env.Host.Calls {
+		if c.Kind == "write" {
+			r.WriteBy = append(r.WriteBy, c.Addr)
+		}
+	}
+	for _, l := range in.env.State.Logs() {
+		if in.tx == "R" && len(l.Data) == 32 {
+			r.RFlags = append(r.RFlags, int(l.Data[31]))
+		}
+	}
 	r.Closed = in.env.EVM.Tracer().CallTree().Current() == nil
 	r.EntryStacksClean = true
 	for _, n := range in.tr.entryStack {
@@ -241,11 +304,18 @@ func (in *inInstance) run() {
 }
 
 // solo runs one configuration alone and returns its result.
-func inSolo(want int, tx string, steps int) inResult {
-	in := newInstance(want, tx, steps, true)
+func inSolo(want int, tx string, steps int, idx int) inResult {
+	in := newInstance(want, tx, steps, true, idx)
 	in.construct()
 	go in.run()
 	return <-in.done
+}
+
+func inSoloKey(want int, tx string, idx int) string {
+	if tx == "A" || tx == "B" {
+		idx = 0
+	}
+	return fmt.Sprintf("%d/%s/%d", want, tx, idx)
 }
 
 type inMismatch = jcMismatch
@@ -257,7 +327,7 @@ func inReplay(b *inBeh, steps int, solo map[string]inResult) (out []inMismatch) 
 	n := len(b.Want)
 	ins := make([]*inInstance, n)
 	for i := range ins {
-		ins[i] = newInstance(b.Want[i], b.Tx[i], steps, false)
+		ins[i] = newInstance(b.Want[i], b.Tx[i], steps, false, i+1)
 	}
 	finished := make([]*inResult, n)
 	waitPark := func(i int) bool { // true: parked at a gate; false: finished
@@ -292,7 +362,8 @@ func inReplay(b *inBeh, steps int, solo map[string]inResult) (out []inMismatch) 
 			}
 			go ins[i].run()
 			parked[i] = waitPark(i)
-		case "step":
+		case "step", "wset":
+			// wset: from the JUMPDEST gate to the gate inside EVM.Call on 0x66; step: from whichever gate to the next JUMPDEST (or the end)
 			if finished[i] != nil || !parked[i] {
 				continue // the real instance has already ended (its last gate is behind it)
 			}
@@ -348,7 +419,20 @@ func inReplay(b *inBeh, steps int, solo map[string]inResult) (out []inMismatch) 
 		if r.Class == "cancelled" {
 			continue
 		}
-		s := solo[fmt.Sprintf("%d/%s", b.Want[i], b.Tx[i])]
+		own := fmt.Sprintf("%x", ins[i].main[:])
+		for _, by := range r.WriteBy {
+			if by != own {
+				miss("in.isolation", "%s: a context write of this instance's contract %s reached the host attributed to %s", desc, own, by)
+				break
+			}
+		}
+		for _, f := range r.RFlags {
+			if f != 0 {
+				miss("in.isolation", "%s: STATICCALL/DELEGATECALL/CALLCODE on the context writer succeeded (flag mask %d): it depends on what ran before in this process", desc, f)
+				break
+			}
+		}
+		s := solo[inSoloKey(b.Want[i], b.Tx[i], i+1)]
 		if r.Digest != s.Digest {
 			miss("in.isolation", "%s: observable outcome differs from the same instance running alone:\n  here : %s\n  alone: %s", desc, r.Detail, s.Detail)
 		}
@@ -382,17 +466,25 @@ func instancesCmd(args []string) int {
 	// determinism: every configuration alone, several times, interleaved with the other configurations
 	solo := map[string]inResult{}
 	var keys []string
+	// the context-writer transactions first, readers before writers: a reader's first solo run sees a process in which nothing has run yet
+	for _, tx := range []string{"R", "W"} {
+		for _, w := range []int{0, 1} {
+			for idx := 1; idx <= 2; idx++ {
+				keys = append(keys, inSoloKey(w, tx, idx))
+			}
+		}
+	}
 	for _, w := range []int{0, 1, 2, 3} {
 		for _, tx := range []string{"A", "B"} {
-			keys = append(keys, fmt.Sprintf("%d/%s", w, tx))
+			keys = append(keys, inSoloKey(w, tx, 0))
 		}
 	}
 	for r := 0; r < *reps; r++ {
 		for _, k := range keys {
-			var w int
+			var w, idx int
 			var tx string
-			fmt.Sscanf(strings.Replace(k, "/", " ", 1), "%d %s", &w, &tx)
-			res := inSolo(w, tx, *steps)
+			fmt.Sscanf(strings.ReplaceAll(k, "/", " "), "%d %s %d", &w, &tx, &idx)
+			res := inSolo(w, tx, *steps, idx)
 			rep.ByKind["solo"]++
 			if first, ok := solo[k]; !ok {
 				solo[k] = res
@@ -457,13 +549,17 @@ func instancesCmd(args []string) int {
 		cfg := make([]string, 8)
 		for i := 0; i < 8; i++ {
 			w, tx := i%4, []string{"A", "B"}[(i/4)%2]
-			cfg[i] = fmt.Sprintf("%d/%s", w, tx)
+			if r%2 == 1 {
+				w, tx = i%2, []string{"W", "R"}[(i/2)%2] // odd rounds: context writers and readers, two instance addresses
+			}
+			idx := 1 + (i/4)%2
+			cfg[i] = inSoloKey(w, tx, idx)
 			wg.Add(1)
 			go func(i, w int, tx string) {
 				defer wg.Done()
-				in := newInstance(w, tx, *steps, true)
+				in := newInstance(w, tx, *steps, true, idx)
 				in.construct()
-				if i%4 == 3 {
+				if i%4 == 3 && r%2 == 0 {
 					go func() { time.Sleep(time.Duration(i) * time.Microsecond); in.env.EVM.Cancel() }()
 				}
 				go in.run()
